@@ -55,7 +55,10 @@ class Context:
 
     def exit_matrix(self) -> None:
         self._in_matrix = False
-        self._locals.clear()
+        if not self._in_routine:
+            # Inside a routine, the parameters and local variables stay
+            # until the end of the routine.
+            self._locals.clear()
 
     def enter_loop(self) -> None:
         self._loop_stack.append(_LoopContext())
